@@ -30,6 +30,7 @@ TAGS = {
     14: 'a non-blocking request waited, or entered in spite of a conflicting holder',
     15: 'a non-reentrant recursive request entered instead of raising',
     16: 'bookkeeping not empty after every thread has finished',
+    202: 'guard: the thread programs lock the two files in inconsistent order',
     21: 'lost wake-up: a waiter whose conflicting holders have all released was not notified and no thread can move',
     22: 'deadlock: no thread can move',
     23: 'step bound reached',
@@ -472,6 +473,211 @@ def run_path_level(spec, path=None):
             'effective': [s['t'] for s in steps if not s['forced']]}
 
 
+# ------------------------------------------------------------------ two paths per thread: one view (= one pcase) per path
+VPATHS_B = ['/pv-virtual/other/../other/lockfile2', '/pv-virtual/other/lockfile2']
+ALLPATHS = [VPATHS, VPATHS_B]
+
+
+def lock_ordered(threads):
+    """No request on file 0 is nested inside a request on file 1 (the caller's lock-ordering duty)."""
+    def walk(items, holding1):
+        for q in items:
+            if q.get('p', 0) == 0 and holding1:
+                return False
+            if not walk(q.get('body', []), holding1 or q.get('p', 0) == 1):
+                return False
+        return True
+    return all(walk(prog, False) for prog in threads)
+
+
+def gen_path2_spec(rng):
+    nprocs = rng.choice([1, 2])
+    n = rng.choice([2, 2, 3])
+    ordered = rng.random() < 0.8
+
+    def req(depth, budget, holding1):
+        p = 1 if (holding1 and ordered) else rng.randrange(2)
+        sh = rng.random() < 0.6
+        q = {'p': p, 'sh': sh, 'b': rng.random() < 0.7, 'r': rng.random() < 0.6}
+        if rng.random() < 0.4:
+            q['sp'] = rng.randrange(4)
+        budget[0] -= 1
+        body = []
+        while budget[0] > 0 and depth < 3 and rng.random() < 0.55:
+            body.append(req(depth + 1, budget, holding1 or p == 1))
+        if body:
+            q['body'] = body
+        return q
+    threads = []
+    for _ in range(n):
+        budget = [rng.randint(2, 3)]
+        items = []
+        while budget[0] > 0:
+            items.append(req(1, budget, False))
+        threads.append(items)
+    pof = [i % nprocs for i in range(n)]
+    return {'level': 'path2', 'pof': pof, 'threads': threads, 'schedule': gen_schedule(rng, n, rng.choice([0, 20, 50, 90]))}
+
+
+def run_path2_level(spec, path=None):
+    """Like run_path_level, with requests on two different files.  Returns one observation dict per file (a `view`):
+    the steps that act on the other file appear in a view as stutter steps (nothing of this file may change)."""
+    pof = spec['pof']
+    nprocs = max(pof) + 1
+    world = get_world(nprocs, path)
+    S = vs.Sched()
+    world.holder.S = S
+    kernel = vs.VKernel(S)
+    world.holder.kernel = kernel
+    for m in world.machines:
+        if not vs.reset_pools(m.mod):
+            raise RuntimeError('pools of a fresh world are not empty')
+    world.dirty = True
+    keys = [vs._real_os.path.normpath(ps[0]) for ps in ALLPATHS]
+
+    def run_items(rec, items):
+        m = rec['machine']
+        mod = m.mod
+        errs = (mod.AcquiringLockWouldBlockError, mod.RecursiveDeadlockError)
+        for req in items:
+            rec['req'] = req
+            k = req.get('p', 0)
+            S.yield_point(('idle',))
+            rec['cur'] = k
+            entered = False
+            try:
+                spell = ALLPATHS[k][req.get('sp', 0) % len(ALLPATHS[k])]
+                with mod.path_lock(spell, shared=req['sh'], blocking=req['b'], reentrant=req['r']) as fd:
+                    entered = True
+                    rec['bodies'][k].insert(0, req)
+                    rec['holding'][k].insert(0, req)
+                    S.events.append(('enter', req['sh'], fd))
+                    rec['cur'] = None
+                    run_items(rec, req.get('body', []))
+                    rec['req'] = req
+                    S.yield_point(('body',))
+                    rec['cur'] = k
+                    rec['bodies'][k].pop(0)
+                    if req.get('boom'):
+                        raise vs.Boom()
+                rec['holding'][k].pop(0)
+                S.events.append(('exitdone', req['sh']))
+                rec['cur'] = None
+            except vs.Boom:
+                if not entered or not req.get('boom'):
+                    raise
+                rec['holding'][k].pop(0)
+                S.events.append(('exitdone', req['sh']))
+                rec['cur'] = None
+            except errs as e:
+                if entered:
+                    raise
+                S.events.append(('raise', m.exc_name(e)))
+                rec['cur'] = None
+
+    recs = [S.spawn(lambda rec: run_items(rec, rec['prog']), prog=prog, bodies=[[], []], holding=[[], []], req=None, cur=None,
+                    machine=world.machines[pof[i]]) for i, prog in enumerate(spec['threads'])]
+    n = len(recs)
+
+    def proc_obs(m, k):
+        mod = m.mod
+        key = keys[k]
+        tle = mod._thread_level_lock_ref._refs.get(key)
+        fde = mod._fd_ref._refs.get(key)
+        bad = []
+        if set(mod._thread_level_lock_ref._refs) - set(keys) or set(mod._fd_ref._refs) - set(keys):
+            bad.append('unexpected pool keys')
+        plrefs = mod._process_level_lock_ref._refs
+        ple = plrefs.get(fde[0]) if fde else None
+        fds = kernel.fds.get(m.pid, {})
+        if set(plrefs) - {e[0] for e in mod._fd_ref._refs.values()}:
+            bad.append('process-lock pool entry under an fd that is not in the fd pool')
+        o = {'tlref': tle[1] if tle else 0, 'fdref': fde[1] if fde else 0, 'plref': ple[1] if ple else 0,
+             'tl': None, 'pl': None, 'kern': kernel.locks.get((m.pid, key)),
+             'nfds': sum(1 for f in fds.values() if f == key), 'fd': fde[0] if fde else None, 'bad': bad}
+        if tle:
+            L = tle[0]
+            c = L._condition
+            o['tl'] = {'acq': sorted(L._acquired_by.items()), 'owner': c.lock.owner, 'depth': c.lock.depth,
+                       'waiting': sorted(c.waiters), 'notified': sorted(c.notified)}
+        if ple:
+            Pl = ple[0]
+            o['pl'] = {'mutex': Pl._lock.owner, 'sh': sorted(Pl._shared_by.items()), 'ex': sorted(Pl._exclusively_held_by.items())}
+        return o
+
+    schedule = spec.get('schedule') or []
+    steps, final, pos, last = [], None, 0, n - 1
+    while True:
+        if len(steps) >= MAXSTEPS:
+            final = 2
+            break
+        rec, final, forced = pick(recs, S, schedule, pos, last, n, False)
+        if rec is None:
+            break
+        pos += 1
+        last = rec['id']
+        kind = rec['want'][0]
+        push, stutter = kind == 'idle', kind == 'released'
+        q = rec['req']
+        acting = q.get('p', 0) if (push or kind == 'body') else rec['cur']
+        act = f"(PPush {ct.boolean(q['sh'])} {ct.boolean(q['b'])} {ct.boolean(q['r'])})" if push else 'PGo'
+        ev = S.grant(rec)
+        common = {'t': rec['id'], 'act': act, 'push': push, 'stutter': stutter, 'forced': False, 'acting': acting,
+                  'ev': [e for e in ev if e[0] in ('enter', 'raise', 'exitdone', 'wait')],
+                  'failed': [e[1] for e in ev if e[0] == 'lockf-fail'],
+                  'enter_fd': [e[2] for e in ev if e[0] == 'enter']}
+        alive = [r for r in recs if not r['done']]
+        views = []
+        for k in (0, 1):
+            pobs = [proc_obs(m, k) for m in world.machines]
+            other = [r['id'] for r in alive if r['cur'] is not None and r['cur'] != k]
+            views.append({
+                'procs': pobs, 'fdbad': any(o['bad'] for o in pobs),
+                'runnable': [r['id'] for r in alive if S.runnable(r) and r['id'] not in other],
+                'done': sorted([r['id'] for r in recs if r['done']] + other),
+                'released': [r['id'] for r in alive if r['want'][0] == 'released' and r['id'] not in other],
+                'bodies': [(r['id'], [b['sh'] for b in r['bodies'][k]]) for r in recs if r['bodies'][k]],
+                'holding': [(r['id'], [b['sh'] for b in r['holding'][k]]) for r in recs if r['holding'][k]],
+                'lockf': [(r['id'], r['want'][4]) for r in alive if r['want'][0] == 'lockf' and r['want'][3] == keys[k]],
+            })
+        common['views'] = views
+        steps.append(common)
+    merge_stutter_events(steps)
+    crashes = [r['crash'] for r in recs if r['crash']]
+    S.abort_all()
+    if final == 0 and not crashes and all(vs.reset_pools(m.mod) for m in world.machines):
+        world.dirty = False
+    out = []
+    for k in (0, 1):
+        vsteps = []
+        for st in steps:
+            v = st['views'][k]
+            mine = (not st['stutter']) and st['acting'] == k
+            kinds = {e[0]: e for e in st['ev']} if mine else {}
+            if not mine:
+                obs = 'POStep'
+            elif st['push']:
+                obs = 'POPush' if not st['ev'] else 'CRASH'
+            elif 'enter' in kinds:
+                obs = 'POEnter'
+            elif 'raise' in kinds:
+                obs = {'WouldBlock': '(PORaise PThreadWouldBlock)', 'Recursive': '(PORaise PRecursive)',
+                       'ProcWouldBlock': '(PORaise PProcWouldBlock)'}.get(kinds['raise'][1], 'CRASH')
+            elif 'exitdone' in kinds:
+                obs = 'POExit'
+            elif 'wait' in kinds:
+                obs = 'POWait'
+            else:
+                obs = 'POStep'
+            fdbad = v['fdbad']
+            vsteps.append(dict(v, t=st['t'], act=st['act'] if mine else 'PGo', obs=obs, stutter=not mine, fdbad=fdbad,
+                               lockf_failed=(st['failed'][0] if (mine and st['failed']) else None)))
+        vcr = list(crashes) + ['bad-observation' for s_ in vsteps if s_['obs'] == 'CRASH']
+        out.append({'n': n, 'pof': pof, 'steps': vsteps, 'final': 0 if final == 0 else 3, 'crashes': vcr, 'blocked': [],
+                    'effective': [s_['t'] for s_ in steps]})
+    return out, final
+
+
 def items_term(items):
     return ct.lst([ct.pair(ct.nat(k), ct.nat(v)) for k, v in items])
 
@@ -525,6 +731,10 @@ def classify(ctx, spec, tags, obs):
     corr = sorted(t for t in tags if t in CORR)
     oracle = sorted(t for t in tags if t in ORACLE)
     status = 'ok'
+    if 202 in tags and oracle == [22] and not corr:
+        # two files locked in inconsistent order by the thread programs: lock ordering is the caller's duty (module docstring)
+        ctx.coverage['unordered_two_path_deadlocks'] = ctx.coverage.get('unordered_two_path_deadlocks', 0) + 1
+        return 'ok'
     for t in oracle:
         fid = EXCUSED.get(t)
         if fid and not corr and 201 in tags and ctx.open_finding(fid):
@@ -569,6 +779,13 @@ def observe(spec, src=None):
     if spec.get('level', 'thread') == 'thread':
         o = run_thread_level(spec, thread_machine(src))
         return thread_case_term(o), summarize(o)
+    if spec.get('level') == 'path2':
+        views, final = run_path2_level(spec, src)
+        sm = summarize(views[0])
+        sm['final'] = final
+        sm['path2'] = True
+        sm['ordered'] = lock_ordered(spec['threads'])
+        return [path_case_term(v) for v in views], sm
     o = run_path_level(spec, src)
     return path_case_term(o), summarize(o)
 
@@ -623,17 +840,26 @@ def observe_tasks(tasks, jobs):
 def judge(ctx, items, label, quiet=False):
     """items: (spec, term, summary).  Coq judges the terms; classification; returns verdicts."""
     idx = {'thread': [], 'path': []}
+    pterms = []          # (item index, term) for every path-level case; a two-path item contributes two
     for k, (sp, term, sm) in enumerate(items):
-        idx[sp.get('level', 'thread')].append(k)
+        if sp.get('level', 'thread') == 'thread':
+            idx['thread'].append(k)
+        else:
+            for tm in (term if isinstance(term, list) else [term]):
+                pterms.append((k, tm))
     verdicts = [None] * len(items)
     if idx['thread']:
         r = ctx.run_cases(label + '-t', IMPORTS, 'case', [items[k][1] for k in idx['thread']], 'verdict', shard=100)
         for k, v in zip(idx['thread'], r):
             verdicts[k] = v
-    if idx['path']:
-        r = ctx.run_cases(label + '-p', IMPORTS, 'pcase', [items[k][1] for k in idx['path']], 'pverdict', shard=40)
-        for k, v in zip(idx['path'], r):
-            verdicts[k] = v
+    if pterms:
+        r = ctx.run_cases(label + '-p', IMPORTS, 'pcase', [tm for _, tm in pterms], 'pverdict', shard=40)
+        for (k, _), v in zip(pterms, r):
+            verdicts[k] = sorted(set((verdicts[k] or []) + v))
+    for k, (sp, term, sm) in enumerate(items):
+        if sm.get('path2'):
+            extra = ([22] if sm['final'] == 1 else []) + ([23] if sm['final'] == 2 else []) + ([] if sm['ordered'] else [202])
+            verdicts[k] = sorted(set(verdicts[k] + extra))
     # the generated case files are large (GBs in the thorough tier): drop them once Coq has judged them
     import shutil
     for sub in (label + '-t', label + '-p'):
@@ -720,7 +946,7 @@ def exhaustive_bases(rng, tier):
     """Programs whose schedules are enumerated exhaustively."""
     combos = flag_combos()
     bases = [{'level': 'thread', 'threads': [[dict(a)], [dict(b)]]} for a in combos for b in combos]       # 2 x 1: all 64
-    k = 6 if tier == 'quick' else 40
+    k = 3 if tier == 'quick' else 40
     for _ in range(k):                                                                                       # 2 threads, 2+1 requests
         a, b, c = (dict(rng.choice(combos)) for _ in range(3))
         if rng.random() < 0.6:
@@ -1062,13 +1288,15 @@ def run(ctx):
         'moves shared-state access out of a critical section is detected; the exhaustive enumeration takes stutter steps eagerly',
         'processes are simulated by separate module instances of lock.py sharing one virtual kernel table (no real fork / real fcntl)',
         'not covered: the OS scheduler and the kernel fcntl implementation themselves (incl. EDEADLK detection), fairness/starvation, '
-        'the Windows msvcrt branch, more than one path per thread (lock-ordering deadlocks are the caller\'s duty per the module docstring)',
-        'path level (PathModel.v): safety is proved for any number of processes/threads (path_excl_excludes, '
-        'path_body_holds_kernel_lock, pool_refcounts_exact, path_quiescent_empty, kernel_table_compatible) and no_lost_wakeup is '
-        'transferred (path_no_lost_wakeup); deadlock freedom of the whole path_lock with several processes is NOT proved: it is '
-        'checked on every executed schedule (a deadlock on a guard-true schedule is a VIOLATION)',
-        'one path per model instance: pool mutexes are never held across a blocking point, so requests on different paths interact '
-        'only through them; not exercised by the tie',
+        'the Windows msvcrt branch',
+        'two paths per thread: modelled as the product of two one-path models with LIFO program order (TwoPaths.v); the tie runs '
+        'two-path programs and judges one view per path (steps on the other path must leave this path untouched); a deadlock of a '
+        'program that locks the two files in inconsistent order (guard lock_ordered false, tag 202) is the caller\'s duty per the '
+        'module docstring and is accepted, any other two-path deadlock is a VIOLATION; two-path deadlock freedom is not proved',
+        'path level (PathModel.v): safety (path_excl_excludes, path_body_holds_kernel_lock, pool_refcounts_exact, '
+        'path_quiescent_empty, kernel_table_compatible), no_lost_wakeup, granted-once-conflicts-gone and, under the no-upgrade guard, '
+        'deadlock freedom (path_deadlock_free) are proved for any number of processes and threads; a deadlock on a guard-true '
+        'schedule is a VIOLATION',
     ]
     ctx.coverage['source_sha'] = source_sha(vs.LOCK_PY, *USERS)
     jobs = max(1, min(JOBS, 8))
@@ -1087,11 +1315,12 @@ def run(ctx):
     specs = [json.loads(p.read_text()) for p in reg]
     specs = [s.get('spec', s) for s in specs]
     nreg = len(specs)
-    nt, nc, npth, npc = (1000, 300, 300, 100) if quick else (16000, 5000, 4000, 1500)
+    nt, nc, npth, npc = (500, 150, 150, 60) if quick else (16000, 5000, 4000, 1500)
     specs += [gen_thread_spec(ctx.rng) for _ in range(nt)]
     specs += [gen_contention_spec(ctx.rng, 'thread') for _ in range(nc)]
     specs += [gen_path_spec(ctx.rng) for _ in range(npth)]
     specs += [gen_contention_spec(ctx.rng, 'path') for _ in range(npc)]
+    specs += [gen_path2_spec(ctx.rng) for _ in range(50 if quick else 1500)]
     k = max(1, len(specs) // (jobs * 4))
     tasks = [('run', specs[i:i + k], None) for i in range(0, len(specs), k)]
     bases = exhaustive_bases(ctx.rng, ctx.tier)
@@ -1123,8 +1352,10 @@ def run(ctx):
     ctx.coverage['input_distribution'] = {
         'regression_specs': nreg,
         'thread_level_schedules': sum(1 for sp in allspecs if lvl(sp) == 'thread'),
-        'path_level_schedules': sum(1 for sp in allspecs if lvl(sp) == 'path'),
-        'path_level_two_processes': sum(1 for sp in allspecs if lvl(sp) == 'path' and len(set(sp['pof'])) == 2),
+        'path_level_schedules': sum(1 for sp in allspecs if lvl(sp) in ('path', 'path2')),
+        'path_level_two_processes': sum(1 for sp in allspecs if lvl(sp) in ('path', 'path2') and len(set(sp['pof'])) == 2),
+        'two_path_schedules': sum(1 for sp in allspecs if lvl(sp) == 'path2'),
+        'two_path_unordered_programs': sum(1 for sp in allspecs if lvl(sp) == 'path2' and not lock_ordered(sp['threads'])),
         'exhaustive_programs': len(bases), 'exhaustive_incomplete': len(incomplete),
         'exhaustive_schedules': len(items) - len(specs),
         'threads_hist': {str(k2): sum(1 for sp in allspecs if len(sp['threads']) == k2) for k2 in (1, 2, 3, 4)},
